@@ -8,7 +8,7 @@ EXTENDS ArxmlObs, Json, IOUtils, SchemaData
 
 CONSTANTS NM
 VARIABLES l,
-          dead   \* TRUE after the first failing step of a history: the rest of it is not judged (attribution rule)
+          dead   \* TRUE after a failing step of a history that a known finding explains: the rest of it is not judged
 
 \* (a constant overridden in the cfg by a definition of an EXTENDed module is re-evaluated at every use by TLC;
 \*  one level of indirection in this module makes it a precomputed constant)
@@ -56,14 +56,15 @@ StepFails(j) ==
       a == P!ActionPropsCx(pre, cx1, Log[j].ev, Log[j].res, post, cx2)
   IN [st |-> {k \in DOMAIN s2 : s1[k] /\ ~s2[k]}, ac |-> {k \in DOMAIN a : ~a[k]}, cx1 |-> cx1, cx2 |-> cx2]
 
+\* a known-finding signature covers every predicate that flips at the step it describes
+KfsOf(j, sf) == UNION {K!KFMatch(Log[j - 1].obs, sf.cx1, Log[j].ev, Log[j].res, Log[j].obs, sf.cx2, k) : k \in sf.st \cup sf.ac}
 CheckStep(j, sf) ==
   LET pre == Log[j - 1].obs
       post == Log[j].obs
       ev == Log[j].ev
       res == Log[j].res
       cf == Conforms(pre, ev, res, post)
-      \* a known-finding signature covers every predicate that flips at the step it describes
-      kfs == UNION {K!KFMatch(pre, sf.cx1, ev, res, post, sf.cx2, k) : k \in sf.st \cup sf.ac}
+      kfs == KfsOf(j, sf)
   IN /\ \A k \in sf.st : Report(j, "state", k, kfs)
      /\ \A k \in sf.ac : Report(j, "action", k, kfs)
      /\ IF cf = "no" THEN Report(j, "drift", "ConformsToNext", {}) ELSE TRUE
@@ -87,7 +88,10 @@ Next == /\ l < Len(Log)
                 /\ dead' = TRUE
            ELSE LET sf == StepFails(j) IN
                 /\ CheckStep(j, sf)
-                /\ dead' = (sf.st \cup sf.ac # {})
+                \* after a step that a known finding explains, the rest of the history is a consequence of that finding and is
+                \* not judged; after any other failing step the history stays under judgement (a defect shows under the
+                \* property it breaks first, and under those it breaks later)
+                /\ dead' = (sf.st \cup sf.ac # {} /\ KfsOf(j, sf) # {})
 Spec == Init /\ [][Next]_<<l, dead>>
 Consumed == IF TLCGet("stats").diameter = Len(Log) THEN TRUE ELSE PrintT(<<"NOTCONSUMED", TLCGet("stats").diameter, Len(Log)>>)
 =============================================================================
